@@ -11,6 +11,7 @@ import (
 	verifjson "encoding/json"
 	veriffmt "fmt"
 	verifos "os"
+	veriffp "path/filepath"
 )
 
 type verifVector struct {
@@ -136,10 +137,42 @@ func verifIteU64(c bool, a, b uint64) uint64 {
 	return b
 }
 
+var verifTmpDir string
+
+// verifTempPath maps a harness file name to a scratch location (memfs under symgo, a fresh
+// temporary directory outside the repository natively).
+func verifTempPath(name string) string {
+	if verifTmpDir == "" {
+		d, err := verifos.MkdirTemp("", "verif-native-")
+		if err != nil {
+			panic(err)
+		}
+		verifTmpDir = d
+	}
+	p := veriffp.Join(verifTmpDir, name)
+	verifos.MkdirAll(veriffp.Dir(p), 0o755)
+	return p
+}
+
+func verifMemFile(name string, content []byte) {
+	if err := verifos.WriteFile(name, content, 0o644); err != nil {
+		panic(err)
+	}
+}
+
+func verifMemFileBytes(name string) []byte {
+	b, _ := verifos.ReadFile(name)
+	return b
+}
+
 // verifRunNative runs a harness entry natively and reports whether it ended in a violation.
 func verifRunNative(entry func()) (violated bool, msg string) {
 	verifReset()
 	defer func() {
+		if verifTmpDir != "" {
+			verifos.RemoveAll(verifTmpDir)
+			verifTmpDir = ""
+		}
 		if r := recover(); r != nil {
 			if _, ok := r.(verifAssumeFailed); ok {
 				violated, msg = false, "assumption false under this vector"
